@@ -64,7 +64,9 @@ func (p *streamstatsProcessor) Process(iqr *iqr.IQR) (*iqr.IQR, error) {
 	requiredColumns := make(map[string]struct{})
 
 	for _, measureAgg := range measureAggs {
-		if measureAgg.MeasureCol != "" {
+		// "*" (plain count) is not a column: reading it would materialize an
+		// all-null column named "*" in the output.
+		if measureAgg.MeasureCol != "" && measureAgg.MeasureCol != "*" {
 			requiredColumns[measureAgg.MeasureCol] = struct{}{}
 		}
 		if measureAgg.ValueColRequest != nil {
